@@ -71,6 +71,25 @@ def check_case(sink, c, o):  # noqa: C901
             d = same.diff(twice, sp_t.unflatten(lv_t), leaf_ids={id(x) for x in ref_t.leaves}) if ok_t else 'leaves of a tree that contains one container several times differ from the reference'
             sink.check(d is None, 'roundtrip/shared-container', 'a container object occurring twice in the tree is flattened twice and rebuilt at both places', ident, d)
             sink.count('shared-container-cases')
+        # 1d. right afterwards: a twin tree with EQUAL treespec (same key sets, dicts filled in another order, fresh leaves) - whatever the
+        #     engine remembers from the call above (memoised treespecs, reused buffers) must not leak into this one
+        if c.index % 3 == 0 and any(nd.k in gen.DICTS and len(nd.items) > 1 for nd in c.desc.walk()):
+            d_tw = c.desc.copy()
+            rng_tw = gen.case_rng(c.seed, 'c01twin', c.index)
+            for nd in d_tw.walk():
+                if nd.k in gen.DICTS and len(nd.items) > 1:
+                    rng_tw.shuffle(nd.items)
+            twin, _ = gen.materialize(d_tw, rng_tw)
+            ref_tw = refmodel.flatten(twin, o.ref())
+            if not ({id(x) for x in ref_tw.leaves} & same.partial_children_ids(twin)):
+                lv_tw, sp_tw = optree.tree_flatten(twin, **kw)
+                ok_tw = len(lv_tw) == len(ref_tw.leaves) and all(a is b for a, b in zip(lv_tw, ref_tw.leaves))
+                d = same.diff(twin, sp_tw.unflatten(lv_tw), leaf_ids={id(x) for x in ref_tw.leaves}) if ok_tw else 'leaves of the twin differ from the reference'
+                sink.check(d is None, 'roundtrip/equal-twin-afterwards', 'a tree with an equal treespec but another dict insertion order, flattened right after, round-trips to ITS key order', ident, d)
+                mapped_tw = optree.tree_map(_ident, twin, **kw)
+                d = same.diff(twin, mapped_tw, leaf_ids={id(x) for x in ref_tw.leaves})
+                sink.check(d is None, 'identity-map/equal-twin-afterwards', 'tree_map(identity) of the twin is the twin', ident, d)
+                sink.count('equal-twins')
         # 2. re-flatten
         leaves2, spec2 = optree.tree_flatten(rebuilt, **kw)
         ok = len(leaves2) == len(leaves) and all(a is b for a, b in zip(leaves, leaves2))
@@ -132,6 +151,7 @@ def run_shard(sink, tier, seed, shard):
 def finalize(sink, tier, seed):
     sink.require('oracle:unflatten(flatten(t)) is the same tree')
     sink.require('shared-container-cases', 100)
+    sink.require('equal-twins', 100)
     for form in ('iterator', 'tuple', 'generator', 'deque', 'dict-values'):
         sink.require(f'leaves-given-as:{form}', 100)
     for h in ('delete+reinsert', 'move_to_end', 'deque-rotate-at-maxlen', 'defaultdict-autoinsert'):
